@@ -20,6 +20,26 @@ import (
 
 type c18Enum int32
 
+type c18MyInt int64
+type c18MyStr string
+type c18MyBool bool
+type c18MyFloat float64
+
+// a type that reads itself from text
+type c18Point struct{ X, Y int64 }
+
+func (p *c18Point) UnmarshalText(b []byte) error {
+	_, err := fmt.Sscanf(string(b), "%d,%d", &p.X, &p.Y)
+	return err
+}
+
+type c18Outer struct {
+	Name  string
+	Inner c18Inner
+	Many  []c18Inner
+	Opt   *c18Inner
+}
+
 type c18Inner struct {
 	A int64
 	B *string
@@ -187,6 +207,100 @@ func c18Cases() []c18Case {
 				return true
 			})
 		}, []c18Value{{`{a: 4, l: [1, 2]}`, `{"a":4,"l":[1,2]}`, c18Inner{A: 4, L: []int32{1, 2}}}, {`{a: 0, b: "x", l: []}`, `{"a":0,"b":"x","l":[]}`, c18Inner{A: 0, B: str("x"), L: []int32{}}}}, `[1]`},
+		{"myint", func(o *Object, sink *interface{}, ran *int) {
+			o.FieldFunc("myint", func(args struct {
+				X c18MyInt
+				O *c18MyInt
+			}) bool {
+				*ran++
+				*sink = args
+				return true
+			})
+		}, []c18Value{{"5", "5", c18MyInt(5)}, {"-9007199254740991", "-9007199254740991", c18MyInt(-9007199254740991)}}, `"5"`},
+		{"mystr", func(o *Object, sink *interface{}, ran *int) {
+			o.FieldFunc("mystr", func(args struct {
+				X c18MyStr
+				O *c18MyStr
+			}) bool {
+				*ran++
+				*sink = args
+				return true
+			})
+		}, []c18Value{{`""`, `""`, c18MyStr("")}, {`"zoë"`, `"zoë"`, c18MyStr("zoë")}}, `5`},
+		{"mybool", func(o *Object, sink *interface{}, ran *int) {
+			o.FieldFunc("mybool", func(args struct {
+				X c18MyBool
+				O *c18MyBool
+			}) bool {
+				*ran++
+				*sink = args
+				return true
+			})
+		}, []c18Value{{"true", "true", c18MyBool(true)}, {"false", "false", c18MyBool(false)}}, `"true"`},
+		{"myfloat", func(o *Object, sink *interface{}, ran *int) {
+			o.FieldFunc("myfloat", func(args struct {
+				X c18MyFloat
+				O *c18MyFloat
+			}) bool {
+				*ran++
+				*sink = args
+				return true
+			})
+		}, []c18Value{{"0.1", "0.1", c18MyFloat(0.1)}, {"3", "3", c18MyFloat(3)}}, `"x"`},
+		{"u8", func(o *Object, sink *interface{}, ran *int) {
+			o.FieldFunc("u8", func(args struct {
+				X uint8
+				O *uint8
+			}) bool {
+				*ran++
+				*sink = args
+				return true
+			})
+		}, []c18Value{{"0", "0", uint8(0)}, {"255", "255", uint8(255)}}, `"1"`},
+		{"i16", func(o *Object, sink *interface{}, ran *int) {
+			o.FieldFunc("i16", func(args struct {
+				X int16
+				O *int16
+			}) bool {
+				*ran++
+				*sink = args
+				return true
+			})
+		}, []c18Value{{"-32768", "-32768", int16(-32768)}, {"32767", "32767", int16(32767)}}, `true`},
+		{"u64", func(o *Object, sink *interface{}, ran *int) {
+			o.FieldFunc("u64", func(args struct {
+				X uint64
+				O *uint64
+			}) bool {
+				*ran++
+				*sink = args
+				return true
+			})
+		}, []c18Value{{"0", "0", uint64(0)}, {"9007199254740991", "9007199254740991", uint64(9007199254740991)}}, `"9"`},
+		{"pt", func(o *Object, sink *interface{}, ran *int) {
+			o.FieldFunc("pt", func(args struct {
+				X c18Point
+				O *c18Point
+			}) bool {
+				*ran++
+				*sink = args
+				return true
+			})
+		}, []c18Value{{`"1,2"`, `"1,2"`, c18Point{1, 2}}, {`"-7,0"`, `"-7,0"`, c18Point{-7, 0}}}, `12`},
+		{"outer", func(o *Object, sink *interface{}, ran *int) {
+			o.FieldFunc("outer", func(args struct {
+				X c18Outer
+				O *c18Outer
+			}) bool {
+				*ran++
+				*sink = args
+				return true
+			})
+		}, []c18Value{
+			{`{name: "n", inner: {a: 1, l: []}, many: []}`, `{"name":"n","inner":{"a":1,"l":[]},"many":[]}`, c18Outer{Name: "n", Inner: c18Inner{A: 1, L: []int32{}}, Many: []c18Inner{}}},
+			{`{name: "", inner: {a: 2, b: "y", l: [7]}, many: [{a: 3, l: []}, {a: 4, b: "", l: [1]}], opt: {a: 5, l: []}}`, `{"name":"","inner":{"a":2,"b":"y","l":[7]},"many":[{"a":3,"l":[]},{"a":4,"b":"","l":[1]}],"opt":{"a":5,"l":[]}}`,
+				c18Outer{Name: "", Inner: c18Inner{A: 2, B: str("y"), L: []int32{7}}, Many: []c18Inner{{A: 3, L: []int32{}}, {A: 4, B: str(""), L: []int32{1}}}, Opt: &c18Inner{A: 5, L: []int32{}}}},
+		}, `"outer"`},
 	}
 }
 
